@@ -313,6 +313,8 @@ def check_batch(art, work, prog):
                     bad.append("value %s received from Rust becomes %r, expected %s" % (val, g.get("back"), vn))
                 elif g.get("viaWasm") != vn:
                     bad.append("%s.%s.ident() through an identity export came back as %r" % (it["name"], vn, g.get("viaWasm")))
+                elif g.get("memDisc") != val or g.get("viaMemory") != vn:
+                    bad.append("discriminant %s stored by Rust in linear memory is read back as %r and becomes %r, expected %s" % (val, g.get("memDisc"), g.get("viaMemory"), vn))
             res.append((it, "js", not bad, "; ".join(bad[:3])))
     if outs["dart"].ok:
         for it in items:
